@@ -851,3 +851,214 @@ Theorem parse3_print3 : forall t, wf3b t = true -> lex_ok t = true -> parse3 (pr
 Proof.
   intros t Hw Hl. unfold parse3. rewrite (lex3_print3 t Hw Hl). apply parse3_flat3. exact Hw.
 Qed.
+
+(* ---------------------------------------------------------------------------------------------- *)
+(* the legacy parser only produces precedence-stable trees *)
+
+Definition call1 (f : nat) (name : text) (r : list tok) : option (e1 * list tok) :=
+  match r with
+  | TRParen :: r' => Some (E1Call name [], r')
+  | _ => match pargs1 f r with
+         | Some (args, r') => Some (E1Call name args, r')
+         | None => None
+         end
+  end.
+
+Lemma pexpr1_S : forall f p ts,
+  pexpr1 (S f) p ts =
+  match pprim1 f ts with
+  | Some (l, r) => ploop1 f p l r
+  | None => None
+  end.
+Proof. reflexivity. Qed.
+
+Lemma pprim1_S : forall f ts,
+  pprim1 (S f) ts =
+  match ts with
+  | TName n :: TLParen :: r => call1 f n r
+  | TTrue :: TLParen :: r => call1 f t_true r
+  | TFalse :: TLParen :: r => call1 f t_false r
+  | TOp OSub :: r =>
+      match pexpr1 f neg_prec r with
+      | Some (e, r') => Some (E1Neg e, r')
+      | None => None
+      end
+  | TText raw :: r => Some (E1Str raw, r)
+  | TInt raw :: r => Some (E1Dec raw, r)
+  | TDec raw :: r => Some (E1Dec raw, r)
+  | TTrue :: r => Some (E1True, r)
+  | TFalse :: r => Some (E1False, r)
+  | TName n :: r => Some (E1Ref n, r)
+  | TLParen :: r =>
+      match pexpr1 f O r with
+      | Some (e, TRParen :: r') => Some (E1Paren e, r')
+      | _ => None
+      end
+  | _ => None
+  end.
+Proof. reflexivity. Qed.
+
+Lemma pargs1_S : forall f ts,
+  pargs1 (S f) ts =
+  match pexpr1 f O ts with
+  | Some (e, TComma :: r) =>
+      match pargs1 f r with
+      | Some (es, r') => Some (e :: es, r')
+      | None => None
+      end
+  | Some (e, TRParen :: r) => Some ([e], r)
+  | _ => None
+  end.
+Proof. reflexivity. Qed.
+
+Lemma ploop1_S : forall f p l ts,
+  ploop1 (S f) p l ts =
+  match ts with
+  | TOp o :: r =>
+      if Nat.leb p (prec o) then
+        match pexpr1 f (S (prec o)) r with
+        | Some (b, r') => ploop1 f p (E1Bin o l b) r'
+        | None => None
+        end
+      else Some (l, ts)
+  | _ => Some (l, ts)
+  end.
+Proof. reflexivity. Qed.
+
+Definition stop1 (p : nat) (r : list tok) : Prop :=
+  match r with TOp o :: _ => (prec o < p)%nat | _ => True end.
+
+Definition wf1_at (n : nat) : Prop :=
+  (forall p ts e r, (p <= 7)%nat -> pexpr1 n p ts = Some (e, r) ->
+     wf1b e = true /\ (p <= lvl1 e)%nat /\ stop1 p r) /\
+  (forall ts e r, pprim1 n ts = Some (e, r) -> wf1b e = true /\ (7 <= lvl1 e)%nat) /\
+  (forall ts es r, pargs1 n ts = Some (es, r) -> forallb wf1b es = true) /\
+  (forall p l ts e r, ploop1 n p l ts = Some (e, r) ->
+     wf1b l = true -> (p <= lvl1 l)%nat -> stop1 (S (lvl1 l)) ts ->
+     wf1b e = true /\ (p <= lvl1 e)%nat /\ stop1 p r).
+
+Lemma prec_le_6 : forall o, (prec o <= 6)%nat.
+Proof. destruct o; simpl; lia. Qed.
+
+Lemma call1_wf : forall f name r e r0,
+  (forall ts es r, pargs1 f ts = Some (es, r) -> forallb wf1b es = true) ->
+  call1 f name r = Some (e, r0) -> wf1b e = true /\ (7 <= lvl1 e)%nat.
+Proof.
+  intros f name r e r0 IHa H. unfold call1 in H.
+  assert (G : forall ts, match pargs1 f ts with
+                         | Some (args, r') => Some (E1Call name args, r')
+                         | None => None
+                         end = Some (e, r0) -> wf1b e = true /\ (7 <= lvl1 e)%nat).
+  { intros ts H'. destruct (pargs1 f ts) as [[args r']|] eqn:E; [|discriminate H'].
+    inversion H'; subst. simpl. split; [exact (IHa _ _ _ E) | lia]. }
+  destruct r as [|[] r']; try (apply (G _ H)).
+  inversion H; subst. simpl. split; [reflexivity | lia].
+Qed.
+
+Lemma wf1_all : forall n, wf1_at n.
+Proof.
+  induction n as [|n IH]; unfold wf1_at.
+  - repeat split; intros; discriminate.
+  - destruct IH as (IHe & IHp & IHa & IHl). split; [|split; [|split]].
+    + intros p ts e r Hp H. rewrite pexpr1_S in H.
+      destruct (pprim1 n ts) as [[l r1]|] eqn:E; [|discriminate H].
+      destruct (IHp _ _ _ E) as [Hwl Hll].
+      apply (IHl _ _ _ _ _ H Hwl); [lia|].
+      destruct r1 as [|[] r2]; simpl; auto. pose proof (prec_le_6 o). lia.
+    + intros ts e r H. rewrite pprim1_S in H.
+      destruct ts as [|t ts]; [discriminate H|].
+      destruct t; try discriminate H.
+      * (* ( e ) *)
+        destruct (pexpr1 n 0 ts) as [[e0 r0]|] eqn:E; [|discriminate H].
+        destruct r0 as [|[] r1]; try discriminate H.
+        inversion H; subst. destruct (IHe 0%nat _ _ _ (Nat.le_0_l 7) E) as [Hw _].
+        simpl. split; [exact Hw | lia].
+      * (* - e *)
+        destruct o; try discriminate H.
+        destruct (pexpr1 n neg_prec ts) as [[e0 r0]|] eqn:E; [|discriminate H].
+        inversion H; subst. destruct (IHe neg_prec _ _ _ (le_n 7) E) as [Hw [Hl _]].
+        cbn [wf1b lvl1]. split; [|unfold neg_prec; lia].
+        apply andb_true_iff. split; [apply Nat.leb_le; exact Hl | exact Hw].
+      * inversion H; subst. simpl. split; [reflexivity | lia].
+      * inversion H; subst. simpl. split; [reflexivity | lia].
+      * inversion H; subst. simpl. split; [reflexivity | lia].
+      * destruct ts as [|[] ts2]; try (inversion H; subst; simpl; split; [reflexivity | lia]).
+        exact (call1_wf _ _ _ _ _ IHa H).
+      * destruct ts as [|[] ts2]; try (inversion H; subst; simpl; split; [reflexivity | lia]).
+        exact (call1_wf _ _ _ _ _ IHa H).
+      * destruct ts as [|[] ts2]; try (inversion H; subst; simpl; split; [reflexivity | lia]).
+        exact (call1_wf _ _ _ _ _ IHa H).
+    + intros ts es r H. rewrite pargs1_S in H.
+      destruct (pexpr1 n 0 ts) as [[e0 r0]|] eqn:E; [|discriminate H].
+      destruct (IHe 0%nat _ _ _ (Nat.le_0_l 7) E) as [Hw _].
+      destruct r0 as [|[] r1]; try discriminate H.
+      * destruct (pargs1 n r1) as [[es' r']|] eqn:E2; [|discriminate H].
+        inversion H; subst. simpl. rewrite Hw. exact (IHa _ _ _ E2).
+      * inversion H; subst. simpl. rewrite Hw. reflexivity.
+    + intros p l ts e r H Hwl Hpl Hst. rewrite ploop1_S in H.
+      destruct ts as [|t ts']; [inversion H; subst; simpl; auto|].
+      destruct t; try (inversion H; subst; simpl; auto; fail).
+      simpl in Hst.
+      destruct (Nat.leb_spec p (prec o)) as [Hle|Hlt].
+      * destruct (pexpr1 n (S (prec o)) ts') as [[b r']|] eqn:E; [|discriminate H].
+        pose proof (prec_le_6 o) as H6.
+        assert (H7 : (S (prec o) <= 7)%nat) by lia.
+        destruct (IHe _ _ _ _ H7 E) as [Hwb [Hlb Hsb]].
+        apply (IHl _ _ _ _ _ H).
+        -- cbn [wf1b]. rewrite Hwl, Hwb.
+           assert (E1 : Nat.leb (prec o) (lvl1 l) = true) by (apply Nat.leb_le; lia).
+           assert (E2 : Nat.leb (S (prec o)) (lvl1 b) = true) by (apply Nat.leb_le; exact Hlb).
+           rewrite E1, E2. reflexivity.
+        -- simpl. exact Hle.
+        -- simpl lvl1. exact Hsb.
+      * inversion H; subst. simpl. auto.
+Qed.
+
+Theorem parse1_wf : forall s e, parse1 s = Some e -> wf1b e = true.
+Proof.
+  intros s e H. unfold parse1, parse1_toks in H.
+  destruct (pexpr1 (parse_fuel (lex1 s)) 0 (lex1 s)) as [[e0 r]|] eqn:E; [|discriminate H].
+  destruct r; [|discriminate H]. inversion H; subst.
+  destruct (proj1 (wf1_all _) 0%nat _ _ _ (Nat.le_0_l 7) E) as [Hw _]. exact Hw.
+Qed.
+
+(* ---------------------------------------------------------------------------------------------- *)
+(* the hypotheses of the theorems are satisfiable on non-trivial trees *)
+
+Import String.StringSyntax.
+
+Definition ex_src3 : text :=
+  s2t "legacy_add(10, -2 ^ 2) + foo.bar[1](3, ""a\""b"") * -x.y & NULL <= (f() != 1.50)"%string.
+
+Definition ex_tree3 : e3 :=
+  Eval vm_compute in match parse3 ex_src3 with Some t => t | None => X3Null end.
+
+Example ex_tree3_parse : parse3 ex_src3 = Some ex_tree3.
+Proof. vm_compute. reflexivity. Qed.
+
+Example ex_tree3_nontrivial : print3 ex_tree3 = ex_src3.
+Proof. vm_compute. reflexivity. Qed.
+
+Example ex_tree3_hyps : wf3b ex_tree3 = true /\ lex_ok ex_tree3 = true.
+Proof. vm_compute. split; reflexivity. Qed.
+
+Example ex_tree3_lex : lex3 (print3 ex_tree3) = flat3 ex_tree3.
+Proof. exact (lex3_print3 ex_tree3 (proj1 ex_tree3_hyps) (proj2 ex_tree3_hyps)). Qed.
+
+Example ex_tree3_flat : parse3_toks (flat3 ex_tree3) = Some ex_tree3.
+Proof. exact (parse3_flat3 ex_tree3 (proj1 ex_tree3_hyps)). Qed.
+
+Example ex_tree3_roundtrip : parse3 (print3 ex_tree3) = Some ex_tree3.
+Proof. exact (parse3_print3 ex_tree3 (proj1 ex_tree3_hyps) (proj2 ex_tree3_hyps)). Qed.
+
+Definition ex_src1 : text :=
+  s2t "SUM(contact.age, -2 ^ 2) + (1 <> 2) * TRUE() & ""a""""b"" >= word(flow.x_1, 2 - -1, false)"%string.
+
+Definition ex_tree1 : e1 :=
+  Eval vm_compute in match parse1 ex_src1 with Some t => t | None => E1True end.
+
+Example ex_tree1_parse : parse1 ex_src1 = Some ex_tree1.
+Proof. vm_compute. reflexivity. Qed.
+
+Example ex_tree1_wf : wf1b ex_tree1 = true.
+Proof. exact (parse1_wf ex_src1 ex_tree1 ex_tree1_parse). Qed.
